@@ -10,7 +10,7 @@ using namespace cocls;
 
 namespace {
 constexpr int MAXW = 4;
-int grant_order[MAXW + 1];
+int grant_order[8];
 int grants;
 int inside;            // parties inside the critical section
 int finished;
@@ -74,6 +74,75 @@ extern "C" void h_fifo() {
             VF_ASSERT(grant_order[i] == i + 1, "C08 ownership was not handed to the longest-waiting requester (FIFO)");
             vf_out(grant_order[i]);
         }
+        auto again = m.try_lock();
+        VF_ASSERT(!!again, "C08 mutex cannot be locked again after every ownership was released");
+    }
+    VF_ASSERT(vf_live_allocs() == base, "C08 coroutine frames of the waiters were not all released");
+    vf_choice_end();
+    vf_witness();
+}
+
+// ---- late arrivals: requests that arrive while an earlier waiter already owns the mutex (and older waiters are still queued).
+// Skeleton: n (2..3) initial waiters queued behind the owner; the owner releases (style[0]); waiter `holder` (1..n), once granted, keeps the mutex across a
+// suspension; while it does, `nlate` (1..2) further requests arrive; then the holder continues and releases with its style. Every grant must go to the
+// requester that has been waiting longest (arrival order is the order in which the requests reached co_await m.lock()).
+namespace {
+constexpr int MAXL = 7;
+int arrival[MAXL + 1], arrivals, waiting[MAXL + 1];
+future<void> *gate; int holder_id, holder_in;          // (globals with constructors are avoided: objects live in the harness function)
+
+async<void> waiter2(mutex &m, int id, int style) {
+    arrival[id] = ++arrivals; waiting[id] = 1;
+    auto own = co_await m.lock();
+    VF_ASSERT(inside == 0, "C08 lock granted while another party still owns the mutex");
+    for (int j = 1; j <= MAXL; j++)
+        if (j != id && waiting[j]) VF_ASSERT(arrival[j] > arrival[id], "C08 ownership was not handed to the longest-waiting requester (FIFO)");
+    waiting[id] = 0;
+    inside++;
+    grant_order[grants++] = id;
+    if (id == holder_id) { holder_in = 1; co_await *gate; }      // keeps the mutex while further requests arrive
+    inside--;
+    if (style == 1) { own.release(); }
+    else if (style == 2) { co_await own.release(); }
+    else if (style == 3) { auto sp = own.release(); sp.clear(); }
+    finished++;
+}
+}
+
+extern "C" void h_fifo_late() {
+    vf_warmup();
+    const int n = 2 + vf_choice(2);
+    int style[5];
+    for (int i = 0; i <= n; i++) style[i] = vf_choice(4);
+    holder_id = 1 + vf_choice(n);
+    const int nlate = 1 + vf_choice(2);
+    const int lstyle = vf_choice(4);
+    grants = 0; inside = 0; finished = 0; arrivals = 0; holder_in = 0;
+    for (int j = 0; j <= MAXL; j++) { waiting[j] = 0; arrival[j] = 0; }
+    long base = vf_live_allocs();
+    {
+        mutex m;
+        future<void> gate_f; gate = &gate_f;
+        promise<void> gate_p = gate_f.get_promise();
+        {
+            mutex::ownership own = m.try_lock();
+            VF_ASSERT(!!own, "C08 try_lock on a free mutex failed");
+            inside = 1;
+            for (int i = 1; i <= n; i++) waiter2(m, i, style[i]).detach();
+            VF_ASSERT(grants == 0, "C08 a waiter was granted the lock while the owner still holds it");
+            inside = 0;
+            if (style[0] == 1) own.release();
+            else if (style[0] == 2 || style[0] == 3) { auto sp = own.release(); sp.clear(); }
+            else { mutex::ownership tmp(std::move(own)); }
+        }
+        // waiters 1..holder-1 have come and gone, the holder owns the mutex and is suspended, the rest is still queued
+        VF_ASSERT(holder_in == 1 && grants == holder_id, "C08 the waiters before the holder were granted the lock one after the other");
+        for (int l = 1; l <= nlate; l++) waiter2(m, n + l, lstyle).detach();
+        VF_ASSERT(grants == holder_id, "C08 a late request was granted the lock while it is owned");
+        gate_p();
+        VF_ASSERT(grants == n + nlate, "C08 a lock request was never granted although every owner released (lost request)");
+        VF_ASSERT(finished == n + nlate, "C08 a waiting coroutine did not run to completion");
+        for (int i = 0; i < n + nlate; i++) { VF_ASSERT(grant_order[i] == i + 1, "C08 ownership was not handed to the longest-waiting requester (FIFO)"); vf_out(grant_order[i]); }
         auto again = m.try_lock();
         VF_ASSERT(!!again, "C08 mutex cannot be locked again after every ownership was released");
     }
